@@ -105,3 +105,39 @@ Qed.
 
 Lemma w3_nonempty : Forall (fun e : entry => (let '(ss, _, _) := e in ss) <> []) w3_entries.
 Proof. rewrite w3_entries_eq. repeat constructor; discriminate. Qed.
+
+(* ---------------------------------------------------------------- W4 *)
+
+(* a class named like the path of a classified commodity: Equity (AAPL) and Equity:AAPL (NESN).
+   In the table WITHOUT -m the row Equity > AAPL is a commodity and a group at once, so it is
+   not among the leaf rows from which mapping_law_b reads the folded commodities: the executable
+   statement is false on the (correct) tables of such a universe, whatever the mapping. *)
+Definition w4_universe : list (str * list commodity) :=
+  [ (s_Equity, [AAPL]); (s_Equity ++ [colon] ++ AAPL, [NESN]); (s_Cash, [CHF]) ].
+
+(* -m 1,^Cash *)
+Definition w4_cfg : pf_cfg :=
+  mkPfCfg 0 (feb 28) Monthly 0 (Some CHF) [] [] [mkRule 1 0 (Some (mkRx true s_Cash false))] true (Some w4_universe) true.
+
+Definition w4_entries0 : list entry :=
+  match weights_entries (pf_unmapped w4_cfg) w3_journal with COk es => es | _ => [] end.
+Definition w4_entries : list entry := match weights_entries w4_cfg w3_journal with COk es => es | _ => [] end.
+Definition w4_table : list Z * list wrow := match weights_table w4_cfg w3_journal with COk t => t | _ => ([], []) end.
+Definition w4_table0 : list Z * list wrow :=
+  match weights_table (pf_unmapped w4_cfg) w3_journal with COk t => t | _ => ([], []) end.
+
+Lemma w4_runs :
+  weights_entries (pf_unmapped w4_cfg) w3_journal = COk w4_entries0 /\ weights_entries w4_cfg w3_journal = COk w4_entries /\
+  weights_table (pf_unmapped w4_cfg) w3_journal = COk w4_table0 /\ weights_table w4_cfg w3_journal = COk w4_table.
+Proof. vm_compute. repeat split; reflexivity. Qed.
+
+Lemma w4_hyps :
+  defined_entries w4_entries0 /\ Forall (fun e : entry => (let '(ss, _, _) := e in ss) <> []) w4_entries.
+Proof. vm_compute. split; repeat constructor; discriminate. Qed.
+
+Lemma w4_not_prefix_free :
+  In ([s_Equity; AAPL], jan 31, Some (1 # 4)%Q) w4_entries0 /\ In ([s_Equity; AAPL; NESN], jan 31, Some (1 # 4)%Q) w4_entries0.
+Proof. vm_compute. split; [left; reflexivity|right; right; left; reflexivity]. Qed.
+
+Lemma w4_law_fails : mapping_law_b 0 2 (pc_mapping w4_cfg) (srows w4_table0) (srows w4_table) = false.
+Proof. vm_compute. reflexivity. Qed.
